@@ -76,6 +76,10 @@ pub const ALPHABET: &[(char, &str)] = &[
     ('}', "Pe"),
     ('^', "Sk"),
     ('$', "Sc"),
+    // quotation marks: ordinary characters of a pattern; the library trims them from the ends of a search()
+    // pattern (open finding K4), a match() pattern keeps them
+    ('\'', "Po"),
+    ('"', "Po"),
 ];
 
 fn cat_of(c: char) -> Option<&'static str> {
@@ -596,9 +600,25 @@ pub fn find(re: &Re, subject: &str, dot_matches_cr: bool) -> bool {
 // ------------------------------------------------------------------------------------------------
 // generator
 
+/// the two quotation marks (the last two entries of `ALPHABET`) are generated only where the check models
+/// what the library does to them in a pattern (C10, finding K4); everywhere else regular expressions are
+/// a means, not the subject
+static QUOTES_IN_ALPHABET: std::sync::atomic::AtomicBool = std::sync::atomic::AtomicBool::new(false);
+pub fn allow_quotes() {
+    QUOTES_IN_ALPHABET.store(true, std::sync::atomic::Ordering::Relaxed);
+}
+fn alphabet() -> &'static [(char, &'static str)] {
+    if QUOTES_IN_ALPHABET.load(std::sync::atomic::Ordering::Relaxed) {
+        ALPHABET
+    } else {
+        &ALPHABET[..ALPHABET.len() - 2]
+    }
+}
+
 fn g_char(src: &mut Src, small: bool) -> char {
-    let n = if small { 5 } else { ALPHABET.len() };
-    ALPHABET[src.below(n)].0
+    let a = alphabet();
+    let n = if small { 5 } else { a.len() };
+    a[src.below(n)].0
 }
 
 fn g_cat(src: &mut Src) -> Cat {
@@ -698,7 +718,7 @@ pub fn sample_match(re: &Re, src: &mut Src, out: &mut String) {
         Re::Lit(c) => out.push(*c),
         Re::Dot => out.push(g_char(src, false)),
         Re::Prop(n, k) => {
-            let cands: Vec<char> = ALPHABET
+            let cands: Vec<char> = alphabet()
                 .iter()
                 .map(|x| x.0)
                 .filter(|c| in_cat(*c, *k) != *n)
@@ -708,7 +728,7 @@ pub fn sample_match(re: &Re, src: &mut Src, out: &mut String) {
             }
         }
         Re::Class(neg, items) => {
-            let cands: Vec<char> = ALPHABET
+            let cands: Vec<char> = alphabet()
                 .iter()
                 .map(|x| x.0)
                 .chain("xyz09".chars())
